@@ -103,8 +103,56 @@ def make_session_workload(seed, capacity):
     return "\n".join(lines) + "\n", {}, {"shape": "sessions", "threads": nthreads, "kind": "session"}
 
 
+def make_reuse_workload(seed):
+    """a reader of k1 against `remove k1; put k2` where the new key k2 takes over k1's slot in the
+    same border (and variants: scans/cursors as readers, an update instead of the insert).
+    A reader that uses anything loaded after its last validation returns k2's bytes for k1."""
+    r = random.Random("reuse/%d" % seed)
+    shape = r.choice(["single", "single", "full", "two_level", "layers", "layer_two_level"])
+    keys = shape_keys(r, shape)
+    if len(keys) > 14 and shape == "full":
+        keys = keys[:14]       # leave room: the insert must not split
+    lines = ["storage 61", "bg 0"]
+    pre = {}
+    for k in keys:
+        v = b"p" + k[-3:]
+        lines.append("pre put %s %s" % (hx(k), hx(v)))
+        pre[k] = v.hex()
+    live = sorted(pre)
+    k1 = r.choice(live)
+    k2 = k1 + bytes([r.choice([0x30, 0x00, 0x7a])])
+    if k2 in pre:
+        k2 = k1 + b"00"
+    readers = r.choice([1, 2])
+    t = 0
+    for _ in range(readers):
+        lines.append("thread %d" % t)
+        kind = r.choice(["get", "get", "get", "scan", "iscan"])
+        for _ in range(r.choice([1, 2])):
+            if kind == "get":
+                lines.append("op get %s" % hx(k1))
+            elif kind == "scan":
+                lines.append("op scan %s I %s I 0 0" % (hx(k1), hx(k2)))
+            else:
+                lines.append("op iscan %s I %s I %d 0 400" % (hx(k1), hx(k2), r.choice([0, 1])))
+        t += 1
+    lines.append("thread %d" % t)
+    lines.append("op remove %s" % hx(k1))
+    lines.append("op put %s %s 0" % (hx(k2), hx(b"new%d" % seed)))
+    if r.random() < 0.5:
+        lines.append("op put %s %s 0" % (hx(k1), hx(b"back%d" % seed)))
+    t += 1
+    if r.random() < 0.4:
+        lines.append("thread %d" % t)
+        lines.append("op put %s %s 0" % (hx(r.choice(live)), hx(b"upd%d" % seed)))
+        lines.append("op get %s" % hx(k2))
+    return "\n".join(lines) + "\n", pre, {"shape": shape, "threads": t + 1, "kind": "reuse"}
+
+
 def make_workload(seed, kind, shape=None):
     """returns (text, pre dict, meta)"""
+    if kind == "reuse":
+        return make_reuse_workload(seed)
     if kind.startswith("session"):
         return make_session_workload(seed, int(kind[7:] or 8))
     if kind == "epoch":
